@@ -322,6 +322,11 @@ def forms():
                                     + 16.0 * (_ab().tuple((x[0, 0] * 0 + 2.0, 3.0)) == _ab().tuple((x[1, 1] * 0 + 2.0, 3.0))) + 32.0 * ((2.0, 3.0) == _ab().tuple((x[0, 0] * 0 + 2.0, 3.0)))),
         "dict eq": lambda m, x: x * (1.0 * (_ab().dict({"a": x[0, 0] * 0 + 2.0, "b": 3.0}) == {"b": 3.0, "a": 2.0}) + 2.0 * (_ab().dict({"a": x[0, 0] * 0 + 2.0}) != {"a": 2.0})
                                      + 4.0 * (_ab().dict({"a": x[0, 0] * 0 + 2.0}) == {"a": 2.5}) + 8.0 * ({"a": 2.0} == _ab().dict({"a": x[0, 0] * 0 + 2.0}))),
+        # lists mixing low-precision NumPy-typed (or traced) elements with Python literals: the constructor's own type discovery, not promotion rules
+        "array mixed f32": lambda m, x: m.array([x.astype(onp.float32)[0, 0], 0.1, 2]),
+        "array mixed f32 const": lambda m, x: m.array([onp.float32(1.5), 0.1]) * x[0, 0],
+        "array mixed c64": lambda m, x: m.array([(x[0, 0] * (1.0 + 2.0j)).astype(onp.complex64), 0.1 + 0.3j]),
+        "array mixed f16 nested": lambda m, x: m.array([[x.astype(onp.float16)[0, 0], 0.1], [1, x.astype(onp.float16)[1, 1]]]),
         "seq index": lambda m, x: float(_ab().list([x[0, 0], 3.0, 7.0]).index(7.0)) * x,
         "seq iter": lambda m, x: _ab().list([2.0 * e for e in _ab().tuple((x[0], x[1, 1], 1.5))]),
         "dict queries": lambda m, x: x * float(len(_ab().dict({"a": x[0], "b": 1.0})) + 4 * ("a" in _ab().dict({"a": x[0]})) + 8 * ("z" in _ab().dict({"a": x[0]}))
